@@ -370,7 +370,7 @@ func runC17(c *Ctx) {
 	// ---------- R17.11 failure atomicity
 	c.Rule("R17.11", "E8", "dependency database and runtime registration: no method writes its tables and can still fail afterwards (a rejected registration leaves no trace); listed: Run's start-up, which cancels its context again when the watches cannot be set up, and watch()'s not-yet-started marker", 3)
 	c.FailureAtomicity("R17.11", []string{pkgDep, pkgRuntime}, map[string]string{
-		"(*pkg/controller/runtime.Runtime).Run$*":  "runCtx is set before setupWatches; on failure the context is cancelled and Run returns the error: the runtime is not usable afterwards by design",
+		"(*pkg/controller/runtime.Runtime).Run$*": "runCtx is set before setupWatches; on failure the context is cancelled and Run returns the error: the runtime is not usable afterwards by design",
 		"(*pkg/controller/runtime.Runtime).watch": "the key is recorded as not-yet-watched (false) before the watch is started; a failed start is reported and the runtime stops",
 	}, pkgRRuntime, 4)
 
